@@ -23,6 +23,7 @@ func Awkward() []*Grammar {
 	lit("nonbmp", "😀", "𝔘𝔫𝔦", "é")
 	lit("comment", `*/`, `/*`, `//`)
 	lit("gokeywords", "func", "type", "range", "nil", "iota")
+	lit("control", "a\nb", "tab\tq", "cr\rx", "\n")
 
 	// Go keywords and predeclared names as token names and regdef names
 	add(&Grammar{ID: "awk-toknames", Seps: wsSeps,
